@@ -163,7 +163,28 @@ type nMaps struct {
 	D map[string]map[string]bool
 }
 
+// two DIFFERENT struct types that print alike ("drive.record"): anything remembered per type must be keyed by the
+// type, not by its name
+func localRecordA() reflect.Type {
+	type record struct {
+		Name   string `clover:"name"`
+		Visits int    `clover:"visits"`
+	}
+	return reflect.TypeOf(record{})
+}
+
+func localRecordB() reflect.Type {
+	type record struct {
+		Ref   string `clover:"ref"`
+		Count int    `clover:"count,omitempty"`
+		Extra float64
+		When  time.Time `clover:"when"`
+	}
+	return reflect.TypeOf(record{})
+}
+
 var structFamily = []reflect.Type{
+	localRecordA(), localRecordB(),
 	reflect.TypeOf(nPlain{}), reflect.TypeOf(nTagged{}), reflect.TypeOf(nWithJSON{}), reflect.TypeOf(nInner{}), reflect.TypeOf(nOuter{}),
 	reflect.TypeOf(nEmbed{}), reflect.TypeOf(nEmbedExported{}), reflect.TypeOf(nEmbedPtr{}), reflect.TypeOf(nUnexp{}), reflect.TypeOf(nTimes{}),
 	reflect.TypeOf(nPtrs{}), reflect.TypeOf(nArrays{}), reflect.TypeOf(nIfaces{}), reflect.TypeOf(nWidths{}), reflect.TypeOf(nNamed{}),
@@ -172,6 +193,7 @@ var structFamily = []reflect.Type{
 
 // types whose round trip through Unmarshal is specified (no interface fields, no unexported fields)
 var roundTripFamily = []reflect.Type{
+	localRecordA(), localRecordB(),
 	reflect.TypeOf(nPlain{}), reflect.TypeOf(nTagged{}), reflect.TypeOf(nWithJSON{}), reflect.TypeOf(nInner{}), reflect.TypeOf(nOuter{}),
 	reflect.TypeOf(nEmbedExported{}), reflect.TypeOf(nEmbedPtr{}), reflect.TypeOf(nTimes{}), reflect.TypeOf(nPtrs{}), reflect.TypeOf(nArrays{}),
 	reflect.TypeOf(nWidths{}), reflect.TypeOf(nNamed{}), reflect.TypeOf(nDeep{}), reflect.TypeOf(nMaps{}), reflect.TypeOf(nWrap{}), reflect.TypeOf(nAddr{}),
@@ -692,6 +714,10 @@ func RunNormalize(c *core.Ctx) {
 		doc := document.NewDocument()
 		ref := map[string]any{}
 		paths := []string{"a", "b", "a.b", "a.b.c", "n.x", "n.y.z", "é", "k:1", "a b", "q.r.s.t"}
+		if k%3 == 0 {
+			// empty field names are names like any other: "a." is the field "" of the object a
+			paths = append(paths, "a.", "n.", ".a", "a..b", "a.b.", "")
+		}
 		for i := 0; i < 6; i++ {
 			p := gen.Pick(r, paths)
 			v := r.Nested(2)
